@@ -34,6 +34,8 @@ CONSTANTS NU, NS,     \* first NU units / NS starts of the lists
           ChainNU, ChainNs,   \* units / axis lengths for chains of two operations
           Algo,
           ExtFilter,  \* extend_dim drops generated coordinates that are not strictly inside (start, stop)  [repaired] / keeps them [as found]
+          FillBy,     \* extend_dim: "reindex" = reindex(fill_value=...) [the code] / "fillna" = reindex().fillna(...) [history: seeded defect r4sb1]
+          LenBy,      \* crop_dim_width centre offset from "sizes" = array.sizes[dim] [the code] / "len" = len(array) [history: seeded defect r4sb2]
           RangeFrom   \* get_dim_range: "index" = min / max of the coordinates [the code]
                       \*                "attrs" = the start/stop attributes when present [history: seeded defect r2sb1]
 VARIABLES c, pc, r
@@ -54,10 +56,21 @@ ExtendCases == {x \in [kind : {"extend"}, s : IvUnits, a4 : Starts, n : ExtNs, s
                 /\ OnSub(x.ms) /\ OnSub(x.de)
                 /\ (x.src = "est" => x.n >= 2)                              \* a step can only be estimated from >= 2 points
                 /\ (~x.lc => x.ms < 0) /\ (~x.rc => x.de > 0)}             \* the interval contains the axis
-MkExtend(x) == [kind |-> "extend", s |-> x.s, a4 |-> x.a4, n |-> x.n, src |-> x.src, ms |-> x.ms, me |-> 4 * (x.n - 1) + x.de,
-                lc |-> x.lc, rc |-> x.rc, fill |-> IF x.rc THEN -7 ELSE 0]
+\* sv: which original samples hold NaN (1), +inf (2), -inf (3) instead of a number (0)
+Zeros == <<0, 0, 0, 0, 0, 0, 0, 0, 0, 0, 0, 0>>
+SvPatterns(n) == {<<1>> \o SubSeq(Zeros, 1, n - 1), <<3>> \o SubSeq(Zeros, 1, n - 1)}
+                 \cup (IF n >= 2 THEN {<<2>> \o SubSeq(Zeros, 1, n - 2) \o <<1>>} ELSE {})
+MkExtendSv(x, sv) == [kind |-> "extend", s |-> x.s, a4 |-> x.a4, n |-> x.n, src |-> x.src, ms |-> x.ms, me |-> 4 * (x.n - 1) + x.de,
+                      lc |-> x.lc, rc |-> x.rc, fill |-> IF x.rc THEN -7 ELSE 0, sv |-> sv]
+MkExtend(x) == MkExtendSv(x, SubSeq(Zeros, 1, x.n))
+\* non-numeric originals on a sub-universe: first two units, first start, step attribute, ends on whole steps
+ExtendNanOK(x) == x.s \in {UnitList[1], UnitList[2]} /\ x.a4 = StartList[1] /\ x.src = "attr" /\ x.ms % 4 = 0 /\ x.de % 4 = 0
+\* od = 0: a 1-D array.  od > 0: a 2-D array whose other dimension has od samples; ax = 1 / 2: the operated dimension is the
+\* first / second one (the time axis of a frequency x time spectrogram is the second)
 WidthCases == {x \in [kind : {"width"}, fn : {"adjust", "direct"}, s : Units, a4 : Starts, n : 1..MaxN, src : {"attr", "est"},
-                      w : 1..(2 * MaxN + 3), pos : {"start", "center", "end"}] :
+                      w : 1..(2 * MaxN + 3), pos : {"start", "center", "end"}, od : {0, 2, 9}, ax : {1, 2}] :
+                /\ (x.od = 0 => x.ax = 1)
+                /\ (x.od > 0 => x.s = UnitList[1] /\ x.a4 = StartList[1] /\ x.src = "attr")      \* 2-D arrays: a sub-universe
                 /\ x.w <= 2 * x.n + 3
                 /\ (x.src = "est" => x.n >= 2)
                 /\ (x.fn = "direct" => x.w # x.n /\ x.a4 = 0)}             \* crop_dim_width / extend_dim_width called directly
@@ -93,11 +106,12 @@ ChainUnits == {UnitList[k] : k \in 1..ChainNU}
 ChainCases == UNION {{[kind |-> "chain", s |-> s, a4 |-> a4, n |-> n, src |-> "attr", fill |-> IF o[2].lc THEN 0 ELSE -7, ops |-> o] :
                         o \in Chains(n)} : s \in ChainUnits, a4 \in Starts, n \in ChainNs}
 
-R0 == [step |-> 1, lo |-> 0, hi |-> -1, bad |-> FALSE, ha |-> FALSE, at0 |-> 0, at1 |-> 0,
+R0 == [lost |-> FALSE, step |-> 1, lo |-> 0, hi |-> -1, bad |-> FALSE, ha |-> FALSE, at0 |-> 0, at1 |-> 0,
        set |-> {}, nl |-> 0, nr |-> 0, off |-> 0, len |-> 0, lrel |-> "none", rrel |-> "none"]
 Init == /\ pc = "start"
         /\ \/ c \in CropCases
            \/ \E x \in ExtendCases : c = MkExtend(x)
+           \/ \E x \in {y \in ExtendCases : ExtendNanOK(y)} : \E sv \in SvPatterns(x.n) : c = MkExtendSv(x, sv)
            \/ c \in WidthCases
            \/ c \in ChainCases
         /\ r = [R0 EXCEPT !.hi = c.n - 1]
@@ -160,6 +174,8 @@ ExtendRight == /\ pc = "right"
 \* reindex onto the new coordinates; extend_dim then records attrs start / stop on the coordinate
 Reindex == /\ pc = "reindex"
            /\ r' = [r EXCEPT !.off = r.nl, !.len = CurLen + r.nl + r.nr, !.lo = r.lo - r.nl, !.hi = r.hi + r.nr,
+                             \* seeded: reindex() leaves NaN in the new positions and fillna() then also overwrites original NaNs
+                             !.lost = r.lost \/ (FillBy = "fillna" /\ c.kind = "extend" /\ \E j \in 1..c.n : c.sv[j] = 1),
                              !.ha = IF O.op = "extend" THEN TRUE ELSE r.ha,
                              !.at0 = IF O.op = "extend" THEN Start8 ELSE r.at0,
                              !.at1 = IF O.op = "extend" THEN Stop8 ELSE r.at1]
@@ -168,11 +184,14 @@ Reindex == /\ pc = "reindex"
 (* ------------------------------------------------------------- width: Impl *)
 Same  == /\ pc = "start" /\ O.op = "width" /\ O.w = CurLen
          /\ r' = [r EXCEPT !.len = CurLen, !.off = 0] /\ pc' = "fin" /\ UNCHANGED c
+\* centre: start = max(0, sizes[dim] // 2 - width // 2); coords[start : start + width]  (a slice: it may come out shorter)
+Lead  == IF LenBy = "len" /\ c.kind = "width" /\ c.od > 0 /\ c.ax = 2 THEN c.od ELSE CurLen      \* len(array) = size of the FIRST dimension
 CropW == /\ pc = "start" /\ O.op = "width" /\ O.w < CurLen
          /\ LET off == CASE O.pos = "start"  -> 0
                          [] O.pos = "end"    -> CurLen - O.w
-                         [] O.pos = "center" -> Max(0, CurLen \div 2 - O.w \div 2)
-            IN  r' = [r EXCEPT !.len = O.w, !.off = off, !.lo = r.lo + off, !.hi = r.lo + off + O.w - 1]
+                         [] O.pos = "center" -> Max(0, Lead \div 2 - O.w \div 2)
+                got == Max(0, Min(O.w, CurLen - off))
+            IN  r' = [r EXCEPT !.len = got, !.off = off, !.lo = r.lo + off, !.hi = r.lo + off + got - 1]
          /\ pc' = "fin" /\ UNCHANGED c
 New(x) == IF Algo = "arange_float" THEN ArangeLens(8 * x, c.s, TRUE) ELSE {x}
 ExtendW == /\ pc = "start" /\ O.op = "width" /\ O.w > CurLen
@@ -195,6 +214,7 @@ Export == (pc = "start" /\ r.step = 1) => PrintT(<<"CASE", ToJson(c)>>)
 
 (* ------------------------------------------------- Impl => Req, and laws *)
 Done == pc = "done"
+ImplKeepsSamples == ~r.lost                      \* every original sample keeps its value, NaN included
 NeverOffLattice == ~r.bad                         \* no sample off the lattice, no hole, no spurious range error
 ImplCrop   == (c.kind = "crop" /\ Done) => r.set = CropIdx(c.n, c.ms, c.me, c.lc, c.rc)
 LawCropContiguous == c.kind = "crop" =>
